@@ -650,6 +650,39 @@ mut("C14", "store_value_always_nontrivial", FC, """                } else {
 mut("C14", "extraction_requires_deref", L + "analysis/function_signature/state/call_handling/mod.rs", "|| (id.get_location().recursion_depth() == 0 && access_pattern.is_accessed())", "|| (id.get_location().recursion_depth() == 0 && access_pattern.is_dereferenced())", ["R4|register-params"], "register parameters reported only when dereferenced")
 mut("C14", "intersect_strategy", FS, "tracked_ids: DomainMap<AbstractIdentifier, AccessPattern, UnionMergeStrategy>,", "tracked_ids: DomainMap<AbstractIdentifier, AccessPattern, IntersectMergeStrategy>,", ["R3|tracked_ids|union-strategy"], "ids tracked on one path only are dropped at joins")
 
+# ---------------- C11
+PE = L + "pcode/expressions.rs"
+PT = L + "pcode/term.rs"
+mut("C11", "less_is_sless", PE, "INT_LESS => IrBinOpType::IntLess,", "INT_LESS => IrBinOpType::IntSLess,", ["R1|bin|INT_LESS"], "unsigned less lifted as signed less")
+mut("C11", "store_value_from_input1", PT, """                    address: self.rhs.input1.unwrap().into(),
+                    value: self.rhs.input2.unwrap().into(),""", """                    address: self.rhs.input2.unwrap().into(),
+                    value: self.rhs.input1.unwrap().into(),""", ["R2|def|STORE"], "STORE address and value swapped")
+mut("C11", "input2_not_lifted", PT, """            if let Some(input) = &def.term.rhs.input2 {
+                if input.address.is_some() {
+                    let load_def = input.to_load_def("$load_temp2", generic_pointer_size);
+                    cleaned_def.term.rhs.input2.clone_from(&load_def.lhs);
+                    refactored_defs.push(Term {
+                        tid: def.tid.clone().with_id_suffix("_load2"),
+                        term: load_def,
+                    });
+                }
+            }
+""", "", ["R3|implicit-load|input2"], "RAM operands in input2 are not loaded")
+mut("C11", "binop_operands_swapped", PE, """                lhs: Box::new(expr.input0.unwrap().into()),
+                rhs: Box::new(expr.input1.unwrap().into()),""", """                lhs: Box::new(expr.input1.unwrap().into()),
+                rhs: Box::new(expr.input0.unwrap().into()),""", ["R2|expr|BinOp|operands"], "binary operands swapped")
+mut("C11", "subpiece_size_of_input", PT, """                low_byte: self.rhs.input1.unwrap().parse_to_bytesize(),
+                size: target_var.size,""", """                low_byte: self.rhs.input1.unwrap().parse_to_bytesize(),
+                size: self.rhs.input0.as_ref().unwrap().size,""", ["R2|def|SUBPIECE"], "SUBPIECE sized by its input")
+mut("C11", "same_temp_for_two_slots", PT, 'input.to_load_def("$load_temp1", generic_pointer_size);', 'input.to_load_def("$load_temp0", generic_pointer_size);', ["R3|implicit-load|distinct-temporaries"], "two operand slots share one temporary")
+mut("C11", "zext_as_sext", PE, "INT_ZEXT => IrCastOpType::IntZExt,", "INT_ZEXT => IrCastOpType::IntSExt,", ["R1|cast|INT_ZEXT"], "zero extension lifted as sign extension")
+mut("C11", "negate_as_2comp", PE, "INT_NEGATE => IrUnOpType::IntNegate,", "INT_NEGATE => IrUnOpType::Int2Comp,", ["R1|un|INT_NEGATE"], "bitwise not lifted as two's complement")
+mut("C11", "load_from_input0", PT, """                    var: self.lhs.unwrap().into(),
+                    address: self.rhs.input1.unwrap().into(),""", """                    var: self.lhs.unwrap().into(),
+                    address: self.rhs.input0.unwrap().into(),""", ["R2|def|LOAD"], "LOAD address taken from the space-id operand")
+mut("C11", "callind_target_not_loaded", PT, "JmpType::BRANCHIND | JmpType::CALLIND => {\n                    let input = match", "JmpType::BRANCHIND => {\n                    let input = match", ["R3|implicit-load|indirect-jump-targets"], "RAM-resident indirect call targets not loaded")
+mut("C11", "callind_lifted_as_call_other", PT, "            BRANCH => IrJmp::Branch(unwrap_label_direct(jmp.goto.unwrap())),", "            BRANCH => IrJmp::Return(IrExpression::Const(Bitvector::zero(apint::BitWidth::w64()))).clone(),", ["R1|jmp|BRANCH"], "branch lifted as another jump kind")
+
 for prop, name, spec in M:
     if name.startswith("SILENT_"):
         spec["silent"] = True
